@@ -1,5 +1,6 @@
 import re
 import facts as F
+import rewrites as R
 
 REL = "sudachi-cli/src/analysis.rs"
 
@@ -34,27 +35,73 @@ def _block(t, i):
 
 
 def block_path(body, pos):
-    """offsets of the blocks (`{`) of `body` that are open at `pos`"""
+    """offsets of the blocks (`{`) of `body` that are open at `pos`; the braces that delimit an inlined helper are not blocks"""
     path = []
     for j, c in enumerate(body[:pos]):
-        if c == "{":
+        if c == "{" and not (j > 0 and body[j - 1] == "\x02"):
             path.append(j)
-        elif c == "}":
+        elif c == "}" and not body[j + 1:j + 2] == "\x03":
             path.pop()
     return path
 
 
-def analyze_of(impl):
+def helper_regions(body):
+    """(open, close, propagated errors are fatal) of the inlined helpers: `close` is the offset just after the helper's text;
+    the flag says that the caller turns an Err of the helper into a panic / its own early return (`.expect(..)`, `.unwrap()`, `?`,
+    `.unwrap_or_else(|e| panic!(..))`), so that a `?` inside the helper never lets the caller continue"""
+    res, stack = [], []
+    for m in re.finditer(r"\x02\{|\}\x03", body):
+        if m.group(0) == "\x02{":
+            stack.append(m.start())
+        elif stack:
+            o = stack.pop()
+            after = body[m.end():]
+            fatal = re.match(r"\.expect\(|\.unwrap\(\)|\?|\.unwrap_or_else\(\|\w+\|panic!\(", after) is not None
+            res.append((o, m.end(), fatal))
+    return res
+
+
+def caller_text(body, a, b, regions):
+    """body[a:b] without the text of the inlined helpers (an exit inside a helper leaves the helper; what it means for the steps
+    of that helper is decided by runs_whenever_reached)"""
+    out, pos = [], a
+    for o, c, _ in sorted(regions):
+        if c <= pos or o >= b or any(o2 < o and c < c2 for o2, c2, _ in regions):
+            continue
+        out.append(body[pos:max(pos, o)])
+        pos = max(pos, min(c, b))
+    out.append(body[pos:b])
+    return "".join(out)
+
+
+def runs_whenever_reached(body, s, regions):
+    """the step at offset s is not skipped by an early exit of an inlined helper it sits in, and is not the right operand of a
+    short-circuit operator"""
+    for o, c, fatal in regions:
+        if o < s < c:
+            inside = body[o:s]
+            if re.search(r"\x04ret|\bbreak\b|\bcontinue\b", inside) or (not fatal and re.search(r"\?[;.)]", inside)):
+                return False
+    stmt = re.split(r"[;{}]", body[:s])[-1]
+    return not re.search(r"&&|\|\|", stmt)
+
+
+def analyze_of(impl, scope=None):
     sig = re.search(r"\bfn\s+analyze\s*\(\s*&mut\s+self\s*,\s*(\w+)\s*:\s*&str\s*,\s*(\w+)\s*:\s*&mut\s+Writer\s*\)", impl)
     if not sig:
         raise F.FactError("%s: signature of Analysis::analyze not recognised" % REL)
-    return sig.group(1), sig.group(2), re.sub(r"\s+", "", F.fn_body(impl, "analyze", REL))
+    body = F.fn_body(impl, "analyze", REL)
+    if scope is not None:
+        # private helpers of the same file are read as if inlined at their call (a `return` of a helper leaves the helper only)
+        body = R.inline_calls(body, scope, skip=("analyze", "new")).replace(R.HELPER_RETURN, "\x04ret")
+    return sig.group(1), sig.group(2), re.sub(r"\s+", "", body)
 
 
 def gen():
     t = F.strip_comments(F.src(REL))
     non = impl_block(t, r"\bAnalysis\s+for\s+AnalyzeNonSplitted\b")
-    line, writer, body = analyze_of(non)
+    line, writer, body = analyze_of(non, t)
+    regions = helper_regions(body)
     names = {"line": re.escape(line), "writer": re.escape(writer)}
     writes = []
     for w in re.finditer(WRITE % names, body):
@@ -67,14 +114,14 @@ def gen():
                     continue
                 spath = block_path(body, s.start())
                 # the step is executed whenever the write is: its block encloses the write and nothing leaves the function in between
-                if wpath[:len(spath)] == spath and not re.search(EXITS, body[s.start():w.start()]):
+                if wpath[:len(spath)] == spath and not re.search(EXITS, caller_text(body, s.start(), w.start(), regions)) and runs_whenever_reached(body, s.start(), regions):
                     ok, last = True, s.end()
                     break
             if ok:
                 dom.append(name)
         # an exit before the first step makes everything after it conditional
         first = re.search(STEPS[0][1] % names, body)
-        if first and re.search(EXITS, body[:first.start()]):
+        if first and re.search(EXITS, caller_text(body, 0, first.start(), regions)):
             dom = []
         writes.append(dom)
     other_writes = len(re.findall(r"\.write\(", body)) - len(writes)
